@@ -258,6 +258,32 @@ func c15Waiters(w *W) {
 	var waitRet int64
 	waited := false
 	var got error
+	// waiter functions may be called more than once: in half of the runs a
+	// first call is made with a context of its own that a fault task cancels at
+	// a tape-chosen step ("unless the waiter's own context was cancelled"); the
+	// call that is judged is the following one, made with a live context.
+	abandon := simrt.Choose(2) == 1
+	abandonAt := simrt.Choose(40)
+	actx, acancel := context.WithCancel(w.Ctx)
+	var firstRet int64
+	var firstErr error
+	firstDone := false
+	canceledAt := int64(0)
+	callWaiter := func(ctx context.Context, wait func(context.Context) error) error {
+		if abandon {
+			firstErr = wait(actx)
+			firstRet = h.Tick()
+			firstDone = true
+		}
+		return wait(ctx)
+	}
+	if abandon {
+		simrt.Spawn("fault:cancel-first-wait", func() {
+			simrt.WaitStep(abandonAt)
+			canceledAt = h.Tick()
+			acancel()
+		})
+	}
 	simrt.Spawn("starter:"+names[kind], func() {
 		ctx := w.Ctx
 		switch kind {
@@ -266,31 +292,38 @@ func c15Waiters(w *W) {
 			hrecv(ch)
 		case 1:
 			wait := fun.Operation(func(context.Context) { p.body() }).Launch(ctx)
-			wait(ctx)
+			_ = callWaiter(ctx, func(c context.Context) error { wait(c); return nil })
 		case 2:
 			ch := fun.Worker(func(context.Context) error { p.body(); return errPlanned }).Signal(ctx)
 			got, _ = hrecv(ch)
 		case 3:
 			wait := fun.Worker(func(context.Context) error { p.body(); return errPlanned }).Launch(ctx)
-			got = wait(ctx)
+			got = callWaiter(ctx, wait)
 		case 4:
-			var seen error
-			wait := fun.Worker(func(context.Context) error { p.body(); return errPlanned }).Background(ctx, func(err error) { seen = err })
-			wait(ctx)
-			got = seen
+			var seen []error
+			wait := fun.Worker(func(context.Context) error { p.body(); return errPlanned }).Background(ctx, func(err error) { seen = append(seen, err) })
+			_ = callWaiter(ctx, func(c context.Context) error { wait(c); return nil })
+			for _, e := range seen {
+				if errors.Is(e, errPlanned) {
+					got = e
+				}
+			}
 		case 5:
 			wait := fun.Worker(func(context.Context) error { p.body(); return errPlanned }).StartGroup(ctx, n)
-			got = wait(ctx)
+			got = callWaiter(ctx, wait)
 		case 6:
 			wg := &fun.WaitGroup{}
 			fun.Operation(func(context.Context) { p.body() }).StartGroup(ctx, wg, n)
 			wg.Wait(ctx)
 		case 7:
 			wait := fun.Processor[int](func(context.Context, int) error { p.body(); return errPlanned }).Background(ctx, 1)
-			got = wait(ctx)
+			got = callWaiter(ctx, wait)
 		}
 		waitRet = h.Tick()
 		waited = true
+		if firstDone && errors.Is(firstErr, errPlanned) && got == nil {
+			got = firstErr // the first call already collected the result
+		}
 	})
 	simrt.Quiesce()
 	name := names[kind]
@@ -306,9 +339,20 @@ func c15Waiters(w *W) {
 		w.Violate("background-count", "background-count:"+name, "%s: %d background executions finished, want %d", name, len(p.exits), want)
 		return
 	}
+	if firstDone {
+		w.Probe("waiter-first-call-with-own-context")
+		for _, e := range p.exits {
+			// the abandoned first call may come back early only because its own
+			// context had been cancelled by then
+			if e > firstRet && (canceledAt == 0 || canceledAt > firstRet) {
+				w.Violate("waiter-returned-early", "waiter-returned-early:"+name+":first-call", "%s: a waiter call returned at %d (err=%v) before the background execution finished at %d although its context was still live (cancelled at %d)", name, firstRet, firstErr, e, canceledAt)
+				break
+			}
+		}
+	}
 	for _, e := range p.exits {
 		if e > waitRet {
-			w.Violate("waiter-returned-early", "waiter-returned-early:"+name, "%s: the waiter returned at %d before the background execution finished at %d", name, waitRet, e)
+			w.Violate("waiter-returned-early", "waiter-returned-early:"+name, "%s: the waiter, called with a live context (abandoned first call: %v, returned %v at %d), returned at %d before the background execution finished at %d", name, firstDone, firstErr, firstRet, waitRet, e)
 			break
 		}
 	}
